@@ -60,6 +60,19 @@ func (ex *Exec) indexAddr(fr *frame, in *ssa.IndexAddr) Value {
 	panic(Inconclusive{fmt.Sprintf("IndexAddr on %s in %s", describe(x), fr.fn)})
 }
 
+// tableLookup: a constant string indexed by a symbolic integer becomes one if-then-else term
+// over the positions (no fork per position); nil when it does not apply.
+func tableLookup(m, idx *Term) *Term {
+	if !m.IsConst() || idx.IsConst() || len(m.S) == 0 || len(m.S) > 64 {
+		return nil
+	}
+	res := IntC(int64(m.S[len(m.S)-1]))
+	for i := len(m.S) - 2; i >= 0; i-- {
+		res = Ite(Eq(idx, IntC(int64(i))), IntC(int64(m.S[i])), res)
+	}
+	return res
+}
+
 func (ex *Exec) indexValue(fr *frame, in *ssa.Index) Value {
 	x := ex.get(fr, in.X)
 	idx := ex.get(fr, in.Index).(*Term)
@@ -73,8 +86,11 @@ func (ex *Exec) indexValue(fr *frame, in *ssa.Index) Value {
 			ex.boundsPanic(fr, "index")
 		}
 		return copyVal(a.E[i].V)
-	case *Term: // string (generic code)
+	case *Term: // string (generic code, constant tables)
 		ex.checkIndex(fr, idx, StrLen(a))
+		if t := tableLookup(a, idx); t != nil {
+			return t
+		}
 		return ByteAt(a, idx)
 	}
 	panic(Inconclusive{fmt.Sprintf("Index on %s", describe(x))})
@@ -87,6 +103,9 @@ func (ex *Exec) lookup(fr *frame, in *ssa.Lookup) Value {
 	case *Term: // string index
 		idx := k.(*Term)
 		ex.checkIndex(fr, idx, StrLen(m))
+		if t := tableLookup(m, idx); t != nil {
+			return t
+		}
 		if n := StrLen(m); IsCharList(m) && n.IsConst() && !idx.IsConst() {
 			if v, ok := ex.ConcretizeInt(idx, 0, n.I.Int64(), "string index"); ok {
 				idx = IntC(v)
